@@ -3,6 +3,7 @@ from __future__ import annotations
 from typing import Awaitable, Callable, Optional, Tuple, Union
 
 from h2.exceptions import ProtocolError as H2ProtocolError
+from hyperframe.exceptions import HyperframeError
 
 from .h2 import H2Protocol
 from .h11 import H2CProtocolRequiredError, H2ProtocolAssumedError, H11Protocol
@@ -95,7 +96,7 @@ class ProtocolWrapper:
             )
             try:
                 await protocol.initiate(error.headers, error.settings)
-            except (ValueError, H2ProtocolError):
+            except (ValueError, H2ProtocolError, HyperframeError):
                 # The HTTP2-Settings header is not a valid base64
                 # encoded SETTINGS payload, nothing can be salvaged
                 # (nor is anything that follows to be served).
